@@ -36,6 +36,14 @@ class C05(Check):
         blobs = []
         for h in G.corpus_hex():
             blobs.append((bytes.fromhex(h), "corpus"))
+        # real transactions whose identifier is recorded in the repository's tests (block-explorer data)
+        self.known = {}
+        import os
+        kp = os.path.join(G.HERE, "corpus", "tx_ids.txt")
+        for l in open(kp):
+            h, i = l.split()
+            self.known[h] = i
+            blobs.append((bytes.fromhex(h), "known-id"))
         descs = []
         shapes = G.grid_shapes()
         if not thorough:
@@ -89,6 +97,9 @@ class C05(Check):
         if w[1] != want:
             return "id %s but Monero's definition on the received bytes gives %s (version %d, p=%d, q=%d, type %s)" % (
                 w[1], want, version, p, q, rtype)
+        kid = self.known.get(case.line.split(" ")[2])
+        if kid and w[1] != kid:
+            return "id %s but the recorded Monero identifier of this transaction is %s" % (w[1], kid)
         if w[2] != keccak(b[:p]).hex():
             return "prefix hash %s is not Keccak-256 of the first %d bytes" % (w[2], p)
         return None
